@@ -22,6 +22,24 @@ VERUS_ARGS = ['--num-threads', '16']
 
 W2T = {1: 'u8', 2: 'u16', 4: 'u32'}
 
+# the tags the JVMS assigns (4.4 Table 4.4-B, 4.7.4 verification_type_info / stack_map_frame, 4.7.16.1 element_value): a reader may answer
+# "unexpected tag" only for a byte outside these sets -- otherwise a file another writer produced could not be read back (completeness of the dispatch)
+JVMS_TAGS = {
+    'CpInfo': [(1, 1), (3, 12), (15, 20)],
+    'VerificationTypeInfo': [(0, 8)],
+    'StackMapFrame': [(0, 63), (64, 127), (247, 247), (248, 250), (251, 251), (252, 254), (255, 255)],
+    'ElementValue': [(ord(c), ord(c)) for c in 'BCDFIJSZsec@['],
+}
+
+
+def tag_spec():
+    out = []
+    for t, rs in JVMS_TAGS.items():
+        cond = ' || '.join(f'tag == {a}' if a == b else f'({a} <= tag && tag <= {b})' for a, b in rs)
+        out.append(f'pub open spec fn jvms_tag_{t}(tag: u8) -> bool {{ {cond} }}')
+    return '\n'.join(out) + '\n'
+
+
 
 # ----------------------------------------------------------------------------------------------------------------------
 def rser_chain(entries, acc):
@@ -252,6 +270,10 @@ def emit_read(u, t, body_src, key=None, synth=None, arm=None, dispatcher=None, c
                       f'assert(d.subrange(p0, reader.pos as int) =~= acc + rflat_{en}(vec, vec@.len(), d, {P})); }}'),
             after=f'proof {{ acc = acc + rflat_{en}(vec, vec@.len(), d, {P}); assert(d.subrange(p0, reader.pos as int) =~= acc); }}')
     rewrites = [(r'\bfor\s+_\s+in\s+0\s*\.\.\s*len\b', 'for _k in iter: 0..len')] if loops else []
+    tag_clause = []
+    if t in JVMS_TAGS and not arm:
+        lab_t = f'C20.{t}._read.unexpected-tag-only-outside-the-jvms-tags'
+        tag_clause = [((('after', r'\btag\s*=>\s*\{')), C(lab_t, f'!jvms_tag_{t}(tag)'))]
     reveals = ''.join(f'reveal({x}); ' for x in reveal_set(t))
     d0 = 'old(reader).data@'
     p0 = 'p0' if arm else 'old(reader).pos as int'
@@ -276,7 +298,7 @@ def emit_read(u, t, body_src, key=None, synth=None, arm=None, dispatcher=None, c
          loops=loops, rewrites=rewrites, safety_props=['C20'],
          sig_rewrites=[] if synth else [(r'reader\s*:\s*&mut\s+impl\s+std::io::Read', 'reader: &mut VRd'), (r'std::io::Result<(\w+), VErr>', r'Result<\1, VErr>')],
          transform=lambda b: instrument(pre_rewrite(dispatcher(b) if dispatcher else b, u), t),
-         head_proof=head, canary=canary, proof_label=f'C20.{t}{suffix}._read.consumed-bytes-are-the-layout-of-the-value', **where)
+         head_proof=head, canary=canary, asserts=tag_clause, proof_label=f'C20.{t}{suffix}._read.consumed-bytes-are-the-layout-of-the-value', **where)
     u.close_block()
     if arm:
         u.raw(f'pub use {modname}::*;')
@@ -296,6 +318,7 @@ def build(u):
     for t, (kind, _, _) in JVMS.items():
         u.item(EXP, kind, t, derives=None)
     u.raw(gen_specs())
+    u.raw(tag_spec())
     # the attribute dispatch
     u.fn(EXP, 'pool_has_utf8', ret='res', canary=True, safety_props=['C20'],
          requires=['index >= 1'],
